@@ -178,21 +178,86 @@ pub struct WCase {
     /// how the caller splits its writes: 0 whole, 1 byte-by-byte, n = n-byte pieces
     split: usize,
     append: Option<Program>,
+    /// which Write API carries the pieces: 0 write_all per piece, 1 plain write() loop honouring the
+    /// returned counts, 2 write_vectored over groups of pieces (honouring the returned counts)
+    #[serde(default)]
+    how: u8,
 }
 
-fn run_with_sink<W: Write + Seek + Read>(sink: W, p: &Program, split: usize, append: &Option<Program>) -> Result<W, String> {
+/// Deliver `pieces` through the chosen Write API, advancing exactly by what each call reports.
+fn deliver<W: Write>(w: &mut W, pieces: &[&[u8]], how: u8) -> std::io::Result<()> {
+    match how % 3 {
+        0 => {
+            for p in pieces {
+                w.write_all(p)?;
+            }
+        }
+        1 => {
+            for p in pieces {
+                let mut rest: &[u8] = p;
+                while !rest.is_empty() {
+                    let n = w.write(rest)?;
+                    if n == 0 {
+                        return Err(std::io::Error::new(std::io::ErrorKind::WriteZero, "write returned 0"));
+                    }
+                    rest = &rest[n..];
+                }
+            }
+        }
+        _ => {
+            // groups of up to 4 pieces per write_vectored call
+            for group in pieces.chunks(4) {
+                let mut idx = 0usize; // first slice not fully written
+                let mut off = 0usize; // bytes of slice idx already written
+                while idx < group.len() {
+                    if group[idx].len() == off {
+                        idx += 1;
+                        off = 0;
+                        continue;
+                    }
+                    let mut v: Vec<std::io::IoSlice<'_>> = Vec::new();
+                    v.push(std::io::IoSlice::new(&group[idx][off..]));
+                    for g in &group[idx + 1..] {
+                        v.push(std::io::IoSlice::new(g));
+                    }
+                    let mut n = w.write_vectored(&v)?;
+                    if n == 0 {
+                        return Err(std::io::Error::new(std::io::ErrorKind::WriteZero, "write_vectored returned 0"));
+                    }
+                    while n > 0 {
+                        let left = group[idx].len() - off;
+                        if n >= left {
+                            n -= left;
+                            idx += 1;
+                            off = 0;
+                            if idx == group.len() && n > 0 {
+                                return Err(std::io::Error::new(std::io::ErrorKind::Other, "write_vectored reported more bytes than were offered"));
+                            }
+                        } else {
+                            off += n;
+                            n = 0;
+                        }
+                    }
+                }
+            }
+        }
+    }
+    Ok(())
+}
+
+fn run_with_sink<W: Write + Seek + Read>(sink: W, p: &Program, split: usize, append: &Option<Program>, how: u8) -> Result<W, String> {
     let mut w = std::mem::ManuallyDrop::new(ZipWriter::new(sink));
-    apply_split(&mut w, p, split)?;
+    apply_split(&mut w, p, split, how)?;
     let sink = w.finish().map_err(|e| format!("finish: {e}"))?;
     if let Some(ap) = append {
         let mut w = std::mem::ManuallyDrop::new(ZipWriter::new_append(sink).map_err(|e| format!("new_append: {e}"))?);
-        apply_split(&mut w, ap, split)?;
+        apply_split(&mut w, ap, split, how)?;
         return w.finish().map_err(|e| format!("finish(append): {e}"));
     }
     Ok(sink)
 }
 
-fn apply_split<W: Write + Seek>(w: &mut ZipWriter<W>, p: &Program, split: usize) -> Result<(), String> {
+fn apply_split<W: Write + Seek>(w: &mut ZipWriter<W>, p: &Program, split: usize, how: u8) -> Result<(), String> {
     for op in &p.ops {
         if split == 0 {
             gen::apply(w, op)?;
@@ -203,9 +268,9 @@ fn apply_split<W: Write + Seek>(w: &mut ZipWriter<W>, p: &Program, split: usize)
             Op::File { name, opts, chunks } => {
                 w.start_file(name.clone(), opts.to_zip()).map_err(|e| format!("start_file: {e}"))?;
                 for c in chunks {
-                    for piece in c.expand().chunks(split) {
-                        w.write_all(piece).map_err(|e| format!("write: {e}"))?;
-                    }
+                    let data = c.expand();
+                    let pieces: Vec<&[u8]> = data.chunks(split).collect();
+                    deliver(w, &pieces, how).map_err(|e| format!("write: {e}"))?;
                 }
             }
             other => gen::apply(w, other)?,
@@ -215,9 +280,9 @@ fn apply_split<W: Write + Seek>(w: &mut ZipWriter<W>, p: &Program, split: usize)
 }
 
 fn check_writer(c: &WCase, info: &mut Info) -> Result<(), String> {
-    let reference = run_with_sink(Cursor::new(Vec::new()), &c.program, 0, &c.append)?.into_inner();
+    let reference = run_with_sink(Cursor::new(Vec::new()), &c.program, 0, &c.append, 0)?.into_inner();
     let sw = ShortWriter::new(Cursor::new(Vec::new()), c.sink_schedule.clone());
-    let out = run_with_sink(sw, &c.program, 0, &c.append)?;
+    let out = run_with_sink(sw, &c.program, 0, &c.append, 0)?;
     info.nontrivial = out.short_writes > 0;
     let got = out.inner.into_inner();
     if got != reference {
@@ -226,7 +291,7 @@ fn check_writer(c: &WCase, info: &mut Info) -> Result<(), String> {
     }
     if c.split > 0 {
         let sw = ShortWriter::new(Cursor::new(Vec::new()), c.sink_schedule.clone());
-        let split_bytes = run_with_sink(sw, &c.program, c.split, &c.append)?.inner.into_inner();
+        let split_bytes = run_with_sink(sw, &c.program, c.split, &c.append, c.how)?.inner.into_inner();
         // caller-side splitting: decoded entries (not bytes) must be identical
         let mut model = gen::model(&c.program).0;
         if let Some(ap) = &c.append {
@@ -237,14 +302,14 @@ fn check_writer(c: &WCase, info: &mut Info) -> Result<(), String> {
         let b = observe_seekable(Cursor::new(&split_bytes[..]), &pws, &[4096])?;
         let strip = |v: Result<Vec<EObs>, ()>| v.map(|v| v.into_iter().map(|mut e| { e.csize = 0; e }).collect::<Vec<_>>());
         if strip(a) != strip(b) {
-            return Err(format!("splitting the caller's writes into {}-byte pieces changes the decoded entries", c.split));
+            return Err(format!("splitting the caller's writes into {}-byte pieces (delivered by {}) changes the decoded entries", c.split, ["write_all", "write() loops", "write_vectored"][(c.how % 3) as usize]));
         }
     }
     Ok(())
 }
 
 pub fn run(ctx: &mut Ctx) {
-    ctx.rule("uniform: every seed archive x uniform underlying chunk size 1..64 x {direct, BufReader caps 1,7,64,4096} x caller-buffer schedules; cuts: ONE short read at EVERY byte position of every seed archive (exhaustive); random: generated archives x random schedules; all through the seekable and the streaming reader, compared with an unchunked Cursor read (metadata, bytes, error-ness; zero-length reads return 0; reads after EOF return 0). writer: generated programs (all entry kinds incl. extra data, aligned, ZipCrypto, append) into a sink accepting short writes by schedule: bytes identical to the unchunked run; caller-side write splitting: decoded entries identical. Non-trivial = at least one short transfer happened.");
+    ctx.rule("uniform: every seed archive x uniform underlying chunk size 1..64 x {direct, BufReader caps 1,7,64,4096} x caller-buffer schedules; cuts: ONE short read at EVERY byte position of every seed archive (exhaustive); random: generated archives x random schedules; all through the seekable and the streaming reader, compared with an unchunked Cursor read (metadata, bytes, error-ness; zero-length reads return 0; reads after EOF return 0). writer: generated programs (all entry kinds incl. extra data, aligned, ZipCrypto, append) into a sink accepting short writes by schedule: bytes identical to the unchunked run; caller-side write splitting (pieces delivered by write_all, by write() loops honouring the returned counts, or by write_vectored over groups of pieces): decoded entries identical. Non-trivial = at least one short transfer happened.");
     let seeds = seeds::small_seeds();
     let callers: [&[usize]; 6] = [&[4096], &[1], &[0, 2, 0], &[3, 7], &[64, 0, 1], &[65536]];
     let brs = [0usize, 1, 7, 64, 4096];
@@ -340,15 +405,18 @@ pub fn run(ctx: &mut Ctx) {
             (
                 gen::program(6, 30000, true, true),
                 prop_oneof![proptest::collection::vec(1usize..20, 1..6), Just(vec![1usize]), proptest::collection::vec(prop_oneof![Just(1usize), Just(2), Just(3), Just(29), Just(30), Just(31), 1usize..100000], 1..8)],
-                prop_oneof![Just(0usize), Just(1), 2usize..100],
+                prop_oneof![Just(0usize), Just(1), 2usize..100, 100usize..40000],
+                0u8..3,
                 prop_oneof![2 => Just(None), 1 => gen::program(3, 5000, true, false).prop_map(|mut p| { p.ops.retain(|o| !matches!(o, Op::Comment(_))); Some(p) })],
             )
-                .prop_map(|(program, sink_schedule, split, append)| WCase { program, sink_schedule, split, append })
+                .prop_map(|(program, sink_schedule, split, how, append)| WCase { program, sink_schedule, split, append, how })
                 .boxed()
         },
         &|c: &WCase, info: &mut Info| {
             info.label_if(c.append.is_some(), "append");
             info.label_if(c.split == 1, "byte-by-byte-writes");
+            info.label_if(c.split > 0 && c.how % 3 == 2, "write_vectored");
+            info.label_if(c.split > 0 && c.how % 3 == 1, "write()-loops");
             info.label_if(c.program.ops.iter().any(|o| matches!(o, Op::ExtraFile { .. } | Op::Aligned { .. })), "extra/aligned");
             Verdict::from_result(catch(|| check_writer(c, info)).unwrap_or_else(|p| Err(format!("PANIC: {p}"))))
         },
